@@ -666,6 +666,69 @@ impl<T: Payload> World<T> {
         }
     }
 
+    /// C13 (d): with_capacity(n) and reserve(k) guarantee room for n and count()+k nodes, for
+    /// payload types of very different sizes (the guarantee is generic in T).
+    pub fn obs_capacity(&mut self, n: u32, ty: u8, viols: &mut Vec<Viol>) {
+        fn probe<X: Default>(n: usize, name: &str, viols: &mut Vec<Viol>) {
+            let r = catch(|| {
+                let a: Arena<X> = Arena::with_capacity(n);
+                let c1 = a.capacity();
+                let empty = a.is_empty() && a.count() == 0;
+                drop(a);
+                let mut b: Arena<X> = Arena::new();
+                b.new_node(X::default());
+                b.new_node(X::default());
+                b.reserve(n);
+                (c1, empty, b.capacity(), b.count())
+            });
+            match r {
+                Ok((c1, empty, c2, cnt)) => {
+                    if c1 < n {
+                        viols.push(viol("C13", "with_capacity_too_small", format!("Arena::<{}>::with_capacity({}) has capacity {}", name, n, c1)));
+                    }
+                    if !empty {
+                        viols.push(viol("C13", "new_arena_not_empty", format!("Arena::<{}>::with_capacity({})", name, n)));
+                    }
+                    if c2 < cnt + n {
+                        viols.push(viol("C13", "reserve_too_small", format!("Arena::<{}>: reserve({}) at count {} gave capacity {}", name, n, cnt, c2)));
+                    }
+                }
+                Err(p) => viols.push(viol("C13", "capacity_call_panicked", format!("{} n={}: {}", name, n, trunc(&p, 120)))),
+            }
+        }
+        #[derive(Clone)]
+        struct B4k([u8; 4096]);
+        impl Default for B4k {
+            fn default() -> Self {
+                B4k([0; 4096])
+            }
+        }
+        #[derive(Clone)]
+        struct B8k([u8; 8192]);
+        impl Default for B8k {
+            fn default() -> Self {
+                B8k([0; 8192])
+            }
+        }
+        #[derive(Clone)]
+        struct W32k([u64; 4096]);
+        impl Default for W32k {
+            fn default() -> Self {
+                W32k([0; 4096])
+            }
+        }
+        self.stats.probe("capacity_probe");
+        let n = n as usize;
+        match ty % 6 {
+            0 => probe::<()>(n, "()", viols),
+            1 => probe::<u8>(n, "u8", viols),
+            2 => probe::<B4k>(n.min(2000), "[u8; 4096]", viols),
+            3 => probe::<B8k>(n.min(1500), "[u8; 8192]", viols),
+            4 => probe::<W32k>(n.min(600), "[u64; 4096]", viols),
+            _ => probe::<String>(n, "String", viols),
+        }
+    }
+
     /// C17: par_iter visits exactly the nodes of iter (same order with an indexed collect).
     pub fn obs_par(&mut self, threads: u8, viols: &mut Vec<Viol>) {
         let _ = threads;
